@@ -17,7 +17,7 @@ from .. import algebra as A
 
 PID = "C19"
 MODES = {"rp": ["smartquotes"], "sq": ["replacements"], "both": []}
-QUOTES = {"default": None, "q4": "q4", "qlist": "qlist", "qempty": "qempty"}
+QUOTES = {"default": None, "q4": "q4", "qlist": "qlist", "qempty": "qempty", "qeven": "qeven"}
 
 
 def cfgs_for(preset, mode, quotes):
